@@ -56,11 +56,11 @@ def session(A, job):
     events = []
     for name, img in (("H", h), ("V", v0)):
         if isinstance(img, mc.Raised):
-            events.append(dict(base, op="layout", orient=name, finite=True, st=list(inp["st"]), species=[], exc=img.text))
+            events.append(dict(base, op="layout", orient=name, finite=True, st=list(inp["st"]), species=[], exc=img.text, tol=0))
         else:
             events.append(dict(base, op="layout", orient=name, exc="", **img))
     if not isinstance(h, mc.Raised) and not isinstance(v, mc.Raised):
-        events.append(dict(base, op="mirror", h=h, v=v))
+        events.append(dict(base, op="mirror", h=h, v=v, tol=max(h["tol"], v["tol"])))
     if not isinstance(h, mc.Raised) and not isinstance(h2, mc.Raised):
         events.append(dict(base, op="again", a=h, b=h2))
     return events
@@ -205,7 +205,7 @@ def run(ctx):
     sp = [{"sp": 1, "rect": [0, 0, 10, 10], "trunk": [4, 0, 2, 4], "fork": 1, "anchors": [], "branches": []},
           {"sp": 2, "rect": [0, 6, 4, 4], "trunk": [1, 6, 2, 4], "fork": 0, "anchors": [], "branches": []},
           {"sp": 3, "rect": [6, 6, 4, 4], "trunk": [7, 6, 2, 4], "fork": 0, "anchors": [], "branches": []}]
-    lit = [{"op": "layout", "st": [0, 1, 1], "finite": True, "species": sp}]
+    lit = [{"op": "layout", "st": [0, 1, 1], "finite": True, "species": sp, "tol": 0}]
     mc.trace_selftest(ctx, "TraceGeometry", lit,
                       lambda s: [dict(s[0], species=[sp[0], sp[1], dict(sp[2], rect=[3, 6, 4, 4])])],
                       what="overlapping sibling boxes")
